@@ -544,6 +544,8 @@ def cli_args(d, o, extra=()):
     if o.get("pkgpath"):
         # a directory under the search path that is also mapped into its package by --package-path
         groups.append(["--package-path", os.path.join(d, o["pkgpath"]), o["pkgpath"]])
+    for p_ in o.get("modpat", []):
+        groups.append(["-m", p_])
     for g_ in o.get("decor", []):
         groups.append(list(g_))
     if o.get("list"):
@@ -666,7 +668,7 @@ def level_eligible(o):
     return lambda lvl: a <= 0 or lvl <= a
 
 
-def discovered_groups(world, accept=None, eligible=None):
+def discovered_groups(world, accept=None, eligible=None, mod_accept=None):
     """tests_by_layer_name in insertion order, as discovery builds it: modules in sorted path order"""
     unit = next(i for i, l in enumerate(world["layers"]) if l["kind"] == "unit")
     order = sorted(world["modules"], key=lambda m: m.replace(".", "/") + ".py")
@@ -678,6 +680,8 @@ def discovered_groups(world, accept=None, eligible=None):
     nerr = 0
     for m in order:
         mod = world["modules"][m]
+        if mod_accept is not None and not mod_accept(m):
+            continue            # --module: a module the patterns reject is not even imported
         if mod.get("importError"):
             nerr += 1
             continue
